@@ -83,7 +83,15 @@ func Solve(o *Obligation, outDir string, timeoutS int, seed int, all bool) *Solv
 			cmd.Stderr = &buf
 			cmd.Run()
 			out := buf.String()
-			first := strings.TrimSpace(strings.SplitN(out, "\n", 2)[0])
+			first := ""
+			for _, ln := range strings.Split(out, "\n") {
+				ln = strings.TrimSpace(ln)
+				if ln == "" || strings.HasPrefix(ln, "WARNING") || strings.HasPrefix(ln, "(warning") {
+					continue
+				}
+				first = ln
+				break
+			}
 			status := "unknown"
 			switch first {
 			case "unsat":
